@@ -11,6 +11,11 @@ import sys
 
 VERIF = os.path.dirname(os.path.abspath(__file__))
 sys.path.insert(0, VERIF)
+# VERIF_REPO=<dir>: analyse another checkout of the repository (e.g. a scratch worktree holding a seeded change) instead of
+# /repo.  PYTHONPATH precedes the overlay's .pth entry for /repo, also in sub-processes (canaries, CrossHair).
+if os.environ.get("VERIF_REPO"):
+    sys.path.insert(0, os.environ["VERIF_REPO"])
+    os.environ["PYTHONPATH"] = os.environ["VERIF_REPO"] + os.pathsep + os.environ.get("PYTHONPATH", "")
 
 
 def _ensure_overlay():
